@@ -232,6 +232,21 @@ func (s *Sim) Abort(rule, format string, a ...interface{}) {
 	s.poke()
 }
 
+// Truncate ends the run like Abort but records no violation: the scenario has seen something
+// that is another property's business (a call outliving its schedule in a run that judges
+// routing) and that would only keep the clock running. What was recorded so far is kept;
+// the scenario's oracle is not evaluated on the cut history.
+func (s *Sim) Truncate(probe string) {
+	s.mu.Lock()
+	if s.Probes == nil {
+		s.Probes = map[string]int{}
+	}
+	s.Probes[probe]++
+	s.abort = true
+	s.mu.Unlock()
+	s.poke()
+}
+
 // Violations returns what has been recorded so far.
 func (s *Sim) Violations() []Violation {
 	s.mu.Lock()
